@@ -96,4 +96,10 @@ def qsa_ctrl_positional_broadcast(t, outcome):
     proj[outcome] = 1.0
     t.modify(data=t.data * np.asarray(proj))
     return t
+
+
+def qsa_ctrl_none_vs_zero(A, k=6, sigma=None):
+    # C17 none-vs-zero control: sigma=0 falls through to the 'not given' branch
+    which = "TR" if sigma else "SA"
+    return which
 '''
